@@ -454,6 +454,14 @@ def cold_start(res, ctx, rng, fams):
                 continue                # (judged by drive_pipeline)
             cases.append((seq, texts, f'{name} with {fam.label} word {hex(v)}'))
     stream.run_cold(res, 'c11', cases, rng, 'flag words', n_procs=ctx.pick(8, 24), n_cases=len(cases))
+    # the same calls as a dump through the command line, on a pipe and on pseudo terminals: a flag list is not cut short
+    # because a terminal of 80 columns is looking
+    from vlib import cli, gen, wire
+    events = []
+    for seq, _, _ in cases:
+        events += H.materialize(H.on_thread(6, seq), t0=(events[-1].timestamp + 7) if events else 0x100000001)
+    data = wire.v2_file([(6, 100, b'proc0', b'')], 8, gen.events_to_records(events))
+    cli.terminal_agrees(res, 'c11', data, f'{len(cases)} calls with flag words', columns=(80, 200))
 
 
 IOC_RE = re.compile(r"/\* _IOC\((.*?), '(.)', (\d+), (\d+)\) \*/", re.S)
